@@ -174,6 +174,18 @@ def _rule_inventory():
     return {k: sorted(v) for k, v in inv.items()}
 
 
+# register_jvp_via_jax_jvp: the generic JVP behind the "derived" rules must be exactly: jax.jvp of the wrapped original
+# implementation with ALL primals and ALL tangents (symbolic zeros instantiated) -- no stop_gradient, no closure over operands
+DERIVED_JVP_HELPER = [
+    "def _jvp_rule(primals: tuple[Any, ...], tangents: tuple[Any, ...], **params: Any) -> tuple[Any, Any]:\n"
+    "    tangent_args = tuple((ad.instantiate_zeros(t) for t in tangents))\n\n"
+    "    def _wrapped(*xs: Any) -> Any:\n        return impl(*xs, **params)\n"
+    "    return cast(tuple[Any, Any], jax.jvp(_wrapped, primals, tangent_args))",
+    "ad.primitive_jvps[prim] = _jvp_rule",
+    "if _should_register_transpose(prim, register_transpose):\n    register_transpose_via_linear_transpose(prim, impl, override=transpose_override)",
+]
+
+
 def unit_GenAutodiff():
     ctxt, _ = py2coq.translate_constants(AD, ["_LINEAR_TRANSPOSE_FALLBACK_ALLOWLIST"])
     tree = ast.parse(open(AD).read())
@@ -199,6 +211,14 @@ def unit_GenAutodiff():
     users = _batcher_users()
     out.append("(* plugin modules that register the shared broadcasting batch rule (AST scan of jax2onnx/plugins) *)\n"
                "Definition BATCHER_USERS : list string := [" + "; ".join(py2coq.coq_string(u) for u in users) + "].\n")
+    _, jbody = _func(tree, "register_jvp_via_jax_jvp", AD)
+    if jbody != DERIVED_JVP_HELPER:
+        raise Unsupported("register_jvp_via_jax_jvp is no longer `jax.jvp(wrapped original impl, ALL primals, ALL instantiated tangents)`: "
+                          "the derived JVP rules are not JAX's own rule of the original any more: " + repr(jbody)[:400])
+    if "stop_gradient" in open(AD).read():
+        raise Unsupported("_autodiff_utils.py mentions stop_gradient: a derived rule must not cut derivatives")
+    out.append("(* register_jvp_via_jax_jvp is jax.jvp of the wrapped original impl on ALL primals and ALL instantiated tangents (AST checked) *)\n"
+               "Definition derived_jvp_helper_shape_checked : bool := true.\n")
     inv = _rule_inventory()
     names = {"jvp_hand": "HANDWRITTEN_JVP_PLUGINS", "jvp_derived": "DERIVED_JVP_PLUGINS", "forwarded": "FORWARDED_RULE_PLUGINS",
              "transpose_hand": "HANDWRITTEN_TRANSPOSE_PLUGINS", "batch_shared_broadcast": "BATCH_SHARED_BROADCAST_PLUGINS",
